@@ -1,5 +1,6 @@
 """C18 (partial): never-run-twice by type (witness), no stranded queue (R-QUEUE),
 no swallowed stage/item error (R-ERRDEAD)."""
+from vlib import fixtures
 from rules import errdead, queue
 from vlib import witness
 
@@ -11,6 +12,7 @@ EXEMPT = {
 
 def run(ctx):
     fx = ctx.facts("default")
+    fixtures.run(ctx, ['errdead'])
     witness.run_dir(ctx, "W18", "C18")
     ctx.floor("W18.witnesses", 2)
     queue.run(ctx, fx, "concurrency::work_stealing::WorkStealingQueue", "src/concurrency/work_stealing.rs",
